@@ -466,6 +466,19 @@ def own_kkt_residual(x, y, z, lam, xsi, eta, mu, zet, s, low, upp, alfa, beta, P
     return max(r, abs(sz), abs(zet * z))
 
 
+class _AbortRun(Exception):
+    pass
+
+
+def _ill_posed(call):
+    try:
+        arrs = [call[k_] for k_ in ("low", "upp", "alfa", "beta", "P", "Q", "b")]
+        return bool(any(not np.all(np.isfinite(v)) for v in arrs) or not np.all(call["alfa"] <= call["beta"])
+                    or not np.all(call["low"] < call["alfa"]) or not np.all(call["beta"] < call["upp"]))
+    except ValueError:  # shapes that do not even broadcast
+        return True
+
+
 def run_mma(case, prob, rec):
     """Build the network, run minimize_mma with the recording wrappers. Everything in here that can raise is pyMOTO
     or the (trivial) modules above."""
@@ -501,6 +514,10 @@ def run_mma(case, prob, rec):
                 "d": np.array(d, dtype=float), "x0": None if x0 is None else np.array(x0, dtype=float),
                 "ncb": len(rec["cb"])}
         rec["calls"].append(call)
+        if _ill_posed(call):
+            # not a well-posed subproblem (reported by check_case from the recorded arguments). The interior-point
+            # loop would grind through 400 x 400 x 10 NaN iterations per call, so the run is abandoned here.
+            raise _AbortRun()
         buf = io.StringIO()
         with contextlib.redirect_stdout(buf):
             out = orig(epsimin, low, upp, alfa, beta, P, Q, a0, a, b, c, d, x0=x0)
@@ -516,6 +533,8 @@ def run_mma(case, prob, rec):
     try:
         with contextlib.redirect_stdout(io.StringIO()):
             pym.minimize_mma(net, variables, responses, fn_callback=callback, **prob["kw"])
+    except _AbortRun:
+        rec["aborted"] = True
     finally:
         mmamod.subsolv = orig
     rec["final"] = [np.array(s.state, dtype=float).copy() for s in variables]
